@@ -123,11 +123,12 @@ func c06Gen(r *hx.Run, allowNonK bool) c06Case {
 		sb.WriteString("wrapper:\n  inner:\n")
 		ind = "    "
 	}
-	add := func(key string, words []string, fieldIndent string) {
+	// pfx: what precedes the key on its line (the field indent, or the "- " of the rule's first key)
+	addP := func(pfx, key string, words []string, fieldIndent string) {
 		t, st, k := c06Scalar(r, words, fieldIndent, allowNonK)
 		cs.Styles = append(cs.Styles, st)
 		cs.InK = cs.InK && k
-		sb.WriteString(fieldIndent + key + ": " + t + "\n")
+		sb.WriteString(pfx + key + ": " + t + "\n")
 		if rr.Intn(6) == 0 {
 			sb.WriteString("\n")
 		}
@@ -135,35 +136,61 @@ func c06Gen(r *hx.Run, allowNonK bool) c06Case {
 			sb.WriteString(fieldIndent + "# comment between fields\n")
 		}
 	}
+	add := func(key string, words []string, fieldIndent string) { addP(fieldIndent, key, words, fieldIndent) }
 	for i, n := 0, 1+rr.Intn(3); i < n; i++ {
 		fi := ind + "  "
+		// the keys of a rule in any order (YAML does not care): every key can be the first or the last one
+		var parts []func(pfx string)
 		if rr.Intn(2) == 0 {
-			sb.WriteString(ind + "- alert: " + hx.Pick(rr, []string{"Down", "'Quoted Name'", "\"DQ\""}) + "\n")
-			add("expr", hx.Pick(rr, c06Exprs), fi)
+			parts = append(parts, func(pfx string) {
+				sb.WriteString(pfx + "alert: " + hx.Pick(rr, []string{"Down", "'Quoted Name'", "\"DQ\""}) + "\n")
+			})
+			parts = append(parts, func(pfx string) { addP(pfx, "expr", hx.Pick(rr, c06Exprs), fi) })
 			if rr.Intn(2) == 0 {
-				add("for", []string{hx.Pick(rr, []string{"5m", "1h"})}, fi)
+				parts = append(parts, func(pfx string) { addP(pfx, "for", []string{hx.Pick(rr, []string{"5m", "1h"})}, fi) })
+			}
+			if rr.Intn(3) == 0 {
+				parts = append(parts, func(pfx string) { addP(pfx, "keep_firing_for", []string{hx.Pick(rr, []string{"10m", "2h"})}, fi) })
 			}
 			if rr.Intn(2) == 0 {
-				if rr.Intn(3) == 0 {
-					sb.WriteString(fi + "labels: {severity: critical, team: 'a b'}\n")
-				} else {
-					sb.WriteString(fi + "labels:\n")
-					add("severity", []string{"critical"}, fi+"  ")
-				}
+				parts = append(parts, func(pfx string) {
+					if rr.Intn(3) == 0 {
+						sb.WriteString(pfx + "labels: {severity: critical, team: 'a b'}\n")
+					} else {
+						sb.WriteString(pfx + "labels:\n")
+						add("severity", []string{"critical"}, fi+"  ")
+					}
+				})
 			}
 			if rr.Intn(2) == 0 {
-				sb.WriteString(fi + "annotations:\n")
-				add("summary", hx.Pick(rr, c06Texts), fi+"  ")
-				if rr.Intn(2) == 0 {
-					add("description", hx.Pick(rr, c06Texts), fi+"  ")
-				}
+				parts = append(parts, func(pfx string) {
+					sb.WriteString(pfx + "annotations:\n")
+					add("summary", hx.Pick(rr, c06Texts), fi+"  ")
+					if rr.Intn(2) == 0 {
+						add("description", hx.Pick(rr, c06Texts), fi+"  ")
+					}
+				})
 			}
 		} else {
-			sb.WriteString(ind + "- record: " + hx.Pick(rr, []string{"job:up:sum", "'foo:bar'"}) + "\n")
-			add("expr", hx.Pick(rr, c06Exprs), fi)
+			parts = append(parts, func(pfx string) {
+				sb.WriteString(pfx + "record: " + hx.Pick(rr, []string{"job:up:sum", "'foo:bar'"}) + "\n")
+			})
+			parts = append(parts, func(pfx string) { addP(pfx, "expr", hx.Pick(rr, c06Exprs), fi) })
 			if rr.Intn(3) == 0 {
-				sb.WriteString(fi + "labels:\n")
-				add("team", []string{"infra"}, fi+"  ")
+				parts = append(parts, func(pfx string) {
+					sb.WriteString(pfx + "labels:\n")
+					add("team", []string{"infra"}, fi+"  ")
+				})
+			}
+		}
+		if rr.Intn(2) == 0 {
+			rr.Shuffle(len(parts), func(a, b int) { parts[a], parts[b] = parts[b], parts[a] })
+		}
+		for k, part := range parts {
+			if k == 0 {
+				part(ind + "- ")
+			} else {
+				part(fi)
 			}
 		}
 	}
